@@ -21,7 +21,11 @@ RULE = ("caption sets of 1-2 languages x 1-6 sorted, non-overlapping captions (T
         "+-2s around each hour boundary through SRT/WebVTT/DFXP. Non-trivial: some instant >= 1 "
         "minute, or not a whole millisecond, or a run of identical timespans, or a float time. "
         'In a quarter of the cases the writer object has written another set before; for '
-        'every writer except SAMI captions may also be shuffled and overlapping. ')
+        'every writer except SAMI captions may also be shuffled and overlapping. '
+        "One of two languages may be empty; a caption may be followed by a neighbour whose times "
+        "differ only below the millisecond (same stamps, still a cue of its own: only captions "
+        "with identical times may merge); in a quarter of the cases the Caption objects have a "
+        "past (they held other times and were formatted / printed / written before). ")
 ASSUMPTIONS = [
     "float (SCC-reader) instants within 1 us of a millisecond/frame boundary are not judged "
     "(timedelta rounds to the nearest microsecond before the writers truncate)",
